@@ -36,6 +36,7 @@ class Ctx:
             "utf8": lambda s: s.encode("utf8"),
             "valid_utf8": _valid_utf8,
             "wit": lambda x: True,
+            "all_in": lambda c, f: all(f(x) for x in list(c)),
             "joined": lambda f, n: b"".join(bytes(f(k)) for k in range(n)),
         }
         for name, sf in registry.specfns.items():
